@@ -143,13 +143,13 @@ func checkPct(cs *pctCase, o *pt.Obs) error {
 	}
 	body, _ := json.Marshal(cs)
 	var got [][]float64
-	err := pt.WithWorker(sut.Options{Timeout: callTimeout}, func(c *sut.Client) error {
-		return callOp(c, &sut.Req{Op: "c12percentiles", Body: body}, &got, "percentile computation")
-	})
+	err := withRetry(func(r *rec) error {
+		got = nil
+		return pt.WithWorker(sut.Options{Timeout: callTimeout}, func(c *sut.Client) error {
+			return callOp(c, &sut.Req{Op: "c12percentiles", Body: body}, &got, "percentile computation")
+		})
+	}, o)
 	if err != nil {
-		if v, ok := err.(*violation); ok {
-			return fmt.Errorf("%s", v.msg)
-		}
 		return err
 	}
 	if len(got) != len(cs.Arrays) {
